@@ -68,6 +68,11 @@ type Request struct {
 	ednsRan    bool
 	ecsPolicy  *ecs.Policy
 	clientAddr netip.Addr
+
+	// clientNoOPT is set by the edns handler's decoded branch when it adds
+	// an OPT to a message-born request whose client sent none, so HasOPT
+	// keeps reporting the client's fact, as it does for wire-born requests.
+	clientNoOPT bool
 }
 
 // SetMsg initializes the request from an already decoded message.
@@ -204,8 +209,16 @@ func (r *Request) HasOPT() bool {
 	if r.wireBorn() {
 		return r.hasOPT
 	}
+	if r.clientNoOPT {
+		return false
+	}
 	return r.msg != nil && r.msg.IsEdns0() != nil
 }
+
+// MarkClientWithoutOPT records that the client's query carried no OPT. The
+// edns handler calls it before normalizing a message-born request, whose
+// message gains an OPT for the upstream from then on.
+func (r *Request) MarkClientWithoutOPT() { r.clientNoOPT = true }
 
 // UDPSize returns the client's advertised EDNS UDP size (0 without OPT).
 func (r *Request) UDPSize() uint16 {
